@@ -95,6 +95,7 @@ class Rec:
 
     def reset_step(self):
         self.pip_calls = []     # (units, single, datalen)
+        self.pip_raised = []    # aligned with pip_calls: exception object or None
         self.raised = None      # exception object that left processIncomingPacket / recv
         self.delivered = 0
         self.cb_raised = []
@@ -105,7 +106,17 @@ class Rec:
         self.resets_at_exit = None
 
 
-def instrument(framer, rec):
+def diff_cells(before, after):
+    out = []
+    for u in sorted(before):
+        for ti, t in enumerate(("co", "hr", "di", "ir")):
+            for a, (x, y) in enumerate(zip(before[u][t], after[u][t])):
+                if x != y:
+                    out.append((u, ti, a, x, y))
+    return out
+
+
+def instrument(framer, rec, run=None):
     orig_pip = framer.processIncomingPacket
     orig_reset = framer.resetFrame
 
@@ -116,24 +127,33 @@ def instrument(framer, rec):
 
         def wrapped(req):
             rec.delivered += 1
+            before = run._dump() if run is not None else None
             try:
                 return cb(req)
             except BaseException as e:  # noqa: BLE001
                 rec.cb_raised.append(e)
                 raise
+            finally:
+                if run is not None:
+                    run.cells += diff_cells(before, run._dump())
+                    run.executed.append((getattr(req, "function_code", None), getattr(req, "unit_id", None)))
         units = args.get("unit", "MISSING")
         rec.pip_calls.append((list(units) if isinstance(units, (list, tuple)) else units,
                               args.get("single", "MISSING"), len(args["data"])))
         rec.in_pip = True
         try:
             if "unit" in args:
-                return orig_pip(args["data"], wrapped, args["unit"],
-                                **{k: v for k, v in args.items() if k not in ("data", "callback", "unit")})
-            return orig_pip(args["data"], wrapped,
-                            **{k: v for k, v in args.items() if k not in ("data", "callback", "unit")})
+                orig_pip(args["data"], wrapped, args["unit"],
+                         **{k: v for k, v in args.items() if k not in ("data", "callback", "unit")})
+            else:
+                orig_pip(args["data"], wrapped,
+                         **{k: v for k, v in args.items() if k not in ("data", "callback", "unit")})
         except BaseException as e:  # noqa: BLE001
             rec.raised = e
+            rec.pip_raised.append(e)
             raise
+        else:
+            rec.pip_raised.append(None)
         finally:
             rec.in_pip = False
 
@@ -178,6 +198,7 @@ class StepObs:
         self.delivered = rec.delivered
         self.cb_raised = [raised_name(e) for e in rec.cb_raised]
         self.pip_calls = list(rec.pip_calls)
+        self.pip_raised = [raised_name(e) for e in rec.pip_raised]
         self.out = list(rec.step_sent)
         self.store_changed = store_changed
         self.listen_only = listen_only
@@ -322,6 +343,9 @@ class Run:
         self.ctx = make_context(ctxspec)
         self.fcls = framer_class(framer_name)
         self.conns = {}
+        self.cells = []         # (unit, table 0=co 1=hr 2=di 3=ir, address, old, new) per executed request, in order
+        self.executed = []      # (function_code, unit_id) of every request handed to execute
+        self.all_handlers = []
         self.loop = None
         self.shared = None        # the one protocol object of the datagram servers
         self.shared_rec = None
@@ -339,7 +363,7 @@ class Run:
                                             ignore_missing_slaves=self.cfg.get("ignore_missing_slaves", False))
             self.shared_rec = Rec()
             self.shared.transport = TwTransport(self.shared_rec)
-            instrument(self.shared.framer, self.shared_rec)
+            instrument(self.shared.framer, self.shared_rec, self)
         if fe == "AioUdp":
             from pymodbus.server.async_io import ModbusDisconnectedRequestHandler as H
             self.shared_rec = Rec()
@@ -349,7 +373,7 @@ class Run:
                 h.connection_made(AioTransport(self.shared_rec, None))
                 return h
             self.shared = self.loop.run_until_complete(mk())
-            instrument(self.shared.framer, self.shared_rec)
+            instrument(self.shared.framer, self.shared_rec, self)
 
     # ---- connections
 
@@ -366,7 +390,7 @@ class Run:
             h.request, h.client_address, h.server = c.request, c.peer, self.server
             h.setup()
             c.handler, c.framer = h, h.framer
-            instrument(c.framer, c.rec)
+            instrument(c.framer, c.rec, self)
         elif fe == "AioTcp":
             from pymodbus.server.async_io import ModbusConnectedRequestHandler as H
 
@@ -375,13 +399,14 @@ class Run:
                 h.connection_made(AioTransport(c.rec, c.peer))
                 return h
             c.handler = self.loop.run_until_complete(mk())
+            self.all_handlers.append(c.handler)
             c.framer = c.handler.framer
-            instrument(c.framer, c.rec)
+            instrument(c.framer, c.rec, self)
         elif fe == "TwTcp":
             p = self.factory.buildProtocol(None)
             p.makeConnection(TwTransport(c.rec))
             c.handler, c.framer = p, p.framer
-            instrument(c.framer, c.rec)
+            instrument(c.framer, c.rec, self)
         else:   # datagram front-ends: a "connection" is just a peer address
             if self.shared is not None:
                 c.rec = self.shared_rec
@@ -432,7 +457,7 @@ class Run:
             try:
                 h.setup()
                 framer = h.framer
-                instrument(framer, rec)
+                instrument(framer, rec, self)
                 h.handle()
             except BaseException as e:  # noqa: BLE001
                 escaped = e
@@ -454,16 +479,21 @@ class Run:
                     h.datagram_received(item, c.peer)
                 for _ in range(4):
                     await asyncio.sleep(0)
+                if c.rec.closed_now and fe == "AioTcp":
+                    # a real asyncio transport's close() schedules connection_lost(None)
+                    h.connection_lost(None)
+                    for _ in range(3):
+                        await asyncio.sleep(0)
             try:
                 self.loop.run_until_complete(go())
             except BaseException as e:  # noqa: BLE001
                 escaped = e
             t = h.handler_task
-            if escaped is None and t is not None and t.done() and not t.cancelled():
+            if escaped is None and t is not None and t.done() and not t.cancelled() and not c.rec.closed_now:
                 escaped = t.exception()
             if not h.receive_queue.empty():
                 escaped = escaped or RuntimeError("verif: asyncio handler did not drain its queue")
-            obs = StepObs(kind, c.rec, escaped, h.running and not (t is not None and t.done()), c.framer,
+            obs = StepObs(kind, c.rec, escaped, c.rec.closed_now or (h.running and not (t is not None and t.done())), c.framer,
                           self._dump() != before, lo_before)
         elif fe == "TwTcp":
             try:
@@ -488,16 +518,28 @@ class Run:
     def close(self):
         if self.loop is not None:
             async def fin():
-                hs = [c.handler for c in self.conns.values() if c.handler is not None]
+                hs = list(self.all_handlers)
                 if self.shared is not None:
                     hs.append(self.shared)
-                for h in set(hs):
+                for h in hs:
                     try:
-                        h.connection_lost(None)
+                        if h.handler_task is not None and not h.handler_task.done():
+                            h.connection_lost(None)
                     except Exception:  # noqa: BLE001
                         pass
                 for _ in range(3):
                     await asyncio.sleep(0)
+                for h in hs:   # no task may stay pending on a closed loop
+                    t = h.handler_task
+                    if t is not None and not t.done():
+                        h.running = False
+                        t.cancel()
+                for _ in range(3):
+                    await asyncio.sleep(0)
+                for h in hs:
+                    t = h.handler_task
+                    if t is not None and t.done() and not t.cancelled():
+                        t.exception()   # retrieve, so that nothing is logged at GC
             try:
                 self.loop.run_until_complete(fin())
             except BaseException:  # noqa: BLE001
@@ -528,7 +570,9 @@ def lrc(data):
     return (-sum(data)) & 0xFF
 
 
-def frame(framer_name, tid, uid, pdu, pid=0):
+def frame(framer_name, tid, uid, pdu, pid=0, escape=False):
+    """escape=True: the binary framing's sender-side doubling of '{' '}' inside the PDU data (what
+    buildPacket does for responses)"""
     if framer_name == "socket":
         return struct.pack(">HHHB", tid, pid, len(pdu) + 1, uid) + pdu
     if framer_name == "tls":
@@ -540,8 +584,10 @@ def frame(framer_name, tid, uid, pdu, pid=0):
     if framer_name == "ascii":
         return b":" + (body + bytes([lrc(body)])).hex().upper().encode() + b"\r\n"
     if framer_name == "binary":
+        if escape:    # buildPacket computes the CRC over the already doubled bytes
+            body = bytes([uid, pdu[0]]) + pdu[1:].replace(b"}", b"}}").replace(b"{", b"{{")
         c = crc16(body)
-        return b"{" + body + bytes([c >> 8, c & 0xFF]) + b"}"
+        return b"{" + body + bytes([c & 0xFF, c >> 8]) + b"}"
     raise ValueError(framer_name)
 
 
